@@ -54,12 +54,12 @@ theorem build_names (f : Attr → Bool) (env : FeatEnv) (inh : Inh) (a : A) (at_
       | error e => simp [hk] at h
       | ok ks' =>
         simp only [hk, ebind_ok] at h
-        cases hn : checkNames (flatNames ks') with
+        cases hn : checkNames (caseKidNames ks') with
         | error e => simp [hn] at h
         | ok u =>
           simp only [hn, ebind_ok, epure, Except.ok.injEq, CN.mk.injEq] at h
           obtain ⟨rfl, rfl⟩ := h
-          exact ⟨by simp, fun _ => (checkNames_ok_iff _).1 hn⟩
+          exact ⟨by simp, fun _ => List.Nodup.sublist (flatNames_sub_caseKidNames _) ((checkNames_ok_iff _).1 hn)⟩
   | leaf n m mand d =>
     simp only [build] at h
     cases hi : inherit m inh with
@@ -70,7 +70,7 @@ theorem build_names (f : Attr → Bool) (env : FeatEnv) (inh : Inh) (a : A) (at_
       · simp [hmd] at h
       · simp only [hmd, Bool.false_eq_true, if_false, epure, Except.ok.injEq, CN.mk.injEq] at h
         obtain ⟨rfl, rfl⟩ := h
-        simp [flatNames, flatCaseNames]
+        simp [flatNames, flatCaseNames, choiceMarks, kidMarks, dataNames, dataCaseNames]
   | leafList n m mn mx =>
     simp only [build] at h
     cases hi : inherit m inh with
@@ -78,7 +78,7 @@ theorem build_names (f : Attr → Bool) (env : FeatEnv) (inh : Inh) (a : A) (at_
     | ok i =>
       simp only [hi, ebind_ok, epure, Except.ok.injEq, CN.mk.injEq] at h
       obtain ⟨rfl, rfl⟩ := h
-      simp [flatNames, flatCaseNames]
+      simp [flatNames, flatCaseNames, choiceMarks, kidMarks, dataNames, dataCaseNames]
   | choice n m mand d cases =>
     simp only [build] at h
     cases hi : inherit m inh with
@@ -209,6 +209,12 @@ theorem foldlM_pres {α β : Type} (P : β → Prop) (step : β → α → Excep
 theorem addIff_ns (fs : List Tok) (a : A) : (addIff fs a).meta.ns = a.meta.ns := by
   cases a <;> simp [addIff, A.setMeta, A.meta]
 
+theorem addSt_ns (st : Nat) (a : A) : (addSt st a).meta.ns = a.meta.ns := by
+  unfold addSt
+  split
+  · rfl
+  · cases a <;> simp [A.setMeta, A.meta]
+
 def AllNs (ns : Tok) (l : List A) : Prop := ∀ a ∈ l, a.meta.ns = ns
 
 theorem applyRefine_ns (ns : Tok) (b : List A) (rf : Refine) (b' : List A)
@@ -235,6 +241,13 @@ theorem applyUsesAug_ns (ns : Tok) (expand : List G → Except String (List A)) 
     cases hk : expand aks with
     | error e => simp [hk] at h
     | ok aks' => simp only [hk, ebind_ok] at h; exact addKidsAt_ns ns b path _ b' h hb
+  case stat st inner =>
+    cases inner <;> try (simp only [applyUsesAug, epure, Except.ok.injEq] at h; subst h; exact hb)
+    case aug path aiff aks =>
+      simp only [applyUsesAug] at h
+      cases hk : expand aks with
+      | error e => simp [hk] at h
+      | ok aks' => simp only [hk, ebind_ok] at h; exact addKidsAt_ns ns b path _ b' h hb
 
 mutual
 /-- every node the expansion produces at this level belongs to the module it is expanded in — also when
@@ -309,6 +322,17 @@ theorem expandOne_ns (env : GEnv) (ns : Tok) : ∀ (fuel : Nat) (g : G) (as : Li
           simp only [hr, ebind_ok] at h
           have h1 : AllNs ns k2 := foldlM_pres (AllNs ns) applyRefine (applyRefine_ns ns) refines _ _ hr h0
           exact foldlM_pres (AllNs ns) _ (applyUsesAug_ns ns _) augs _ _ h h1
+  | fuel + 1, .stat st g, as, h => by
+    simp only [expandOne] at h
+    cases hr : expandOne env ns fuel g with
+    | error e => simp [hr] at h
+    | ok r =>
+      simp only [hr, ebind_ok, epure, Except.ok.injEq] at h
+      subst h
+      intro a ha
+      simp only [List.mem_map] at ha
+      obtain ⟨b, hb, rfl⟩ := ha
+      rw [addSt_ns]; exact expandOne_ns env ns fuel g r hr b hb
 end
 
 end YV.C
